@@ -17,6 +17,38 @@ ST = {0: 'INITIAL', 1: 'INIT_RES_SENT', 2: 'INIT_REQ_SENT', 3: 'AUTH_REQ_SENT', 
 WAITING = {2, 3, 11, 12, 13, 14, 15, 16, 17}
 
 
+WATCHDOG_SECONDS = 20
+
+
+class Wedged(BaseException):
+    """raised by the watchdog inside whatever the event loop is doing (not an Exception: the loop's catch-all must not contain it)"""
+
+
+class Watchdog:
+    def __init__(self, seconds):
+        self.seconds = seconds
+
+    def __enter__(self):
+        import signal
+
+        def handler(signum, frame):
+            raise Wedged()
+        try:
+            self.old = signal.signal(signal.SIGALRM, handler)
+            signal.setitimer(signal.ITIMER_REAL, self.seconds)
+            self.armed = True
+        except ValueError:          # not the main thread
+            self.armed = False
+        return self
+
+    def __exit__(self, *a):
+        import signal
+        if self.armed:
+            signal.setitimer(signal.ITIMER_REAL, 0)
+            signal.signal(signal.SIGALRM, self.old)
+        return False
+
+
 class History:
     def __init__(self, seed, trace=True, capture_logs=False, deep=False, **conf):
         self.seed = seed
@@ -99,6 +131,29 @@ class History:
         self.expire_targets, self.expire_owners = [], None      # process_expire calls of this op; owners of the expiring SPI before it
         self.ops.append((kind,) + tuple(str(a) for a in args))
         self.kinds[kind] = self.kinds.get(kind, 0) + 1
+        try:
+            with Watchdog(WATCHDOG_SECONDS):
+                self._do(kind, args)
+        except Wedged:
+            # the event loop did not come back from this operation: report it and make the history end here
+            if len(self.findings) < 40:
+                self.findings.append(('loop-wedged:%s' % kind, 'the event loop did not come back within %d s from %s'
+                                      % (WATCHDOG_SECONDS, ' '.join(self.ops[-1])[:200]), len(self.ops) - 1))
+            w.net.clear()
+            self.wedged = True
+            return
+        for ep in (w.A, w.B):
+            for s in ep.sas():
+                self.visited.add((ep.name, int(s.state), bool(s.is_initiator)))
+        for cb in self.after:
+            cb(self)
+        for o in self.oracles:
+            for key, what in o(self):
+                if len(self.findings) < 40:
+                    self.findings.append((key, what, len(self.ops) - 1))
+
+    def _do(self, kind, args):
+        w = self.w
         if kind == 'acquire':
             ep = w.A if args[0] == 'A' else w.B
             me = ep.addrs[0]
@@ -137,15 +192,6 @@ class History:
             w.forced4 = [None if x in ('-', '') else bytes.fromhex(x) for x in str(args[0])[2:].split(',')] if len(str(args[0])) > 2 else []
         else:
             raise ValueError(kind)
-        for ep in (w.A, w.B):
-            for s in ep.sas():
-                self.visited.add((ep.name, int(s.state), bool(s.is_initiator)))
-        for cb in self.after:
-            cb(self)
-        for o in self.oracles:
-            for key, what in o(self):
-                if len(self.findings) < 40:
-                    self.findings.append((key, what, len(self.ops) - 1))
 
     def random_op(self, loss=0.1, dup=0.15, p_trigger=0.3):
         r, w = self.rng, self.w
@@ -309,3 +355,38 @@ def o_table_exact(h):
 
 
 ALL_BASIC = [o_no_escape]
+
+
+def o_emitted_valid_at_peer(h):
+    """every protected message an endpoint emits must be valid under the keys the two ends negotiated: the IKE_SA of the other endpoint
+    that the header addresses (looked up the way the controller does, successors that are not registered yet included) must be able
+    to verify and decrypt it"""
+    out = []
+    w = h.w
+    for d in w.sent[h.sent_before:]:
+        data = bytes(d.data)
+        if len(data) <= 28 or data[18] < 35 or d.sender not in ('A', 'B'):
+            continue
+        peer = w.B if d.sender == 'A' else w.A
+        sender_is_initiator = bool(data[19] & 0x08)
+        spi = data[8:16] if sender_is_initiator else data[0:8]
+        cands = []
+        for x in peer.sas():
+            cands.append(x)
+            if getattr(x, 'new_ike_sa', None) is not None:
+                cands.append(x.new_ike_sa)
+        sa = next((x for x in cands if bytes(x.my_spi) == spi and x.peer_crypto is not None and int(x.state) != 21), None)
+        if sa is None:
+            continue
+        w.use_side = True
+        try:
+            M.Message.parse(data, header_only=False, crypto=sa.peer_crypto)
+        except Exception as ex:  # noqa
+            out.append(('emitted-message-invalid-under-negotiated-keys:exch%d' % data[18],
+                        '%s emitted a %s of exchange type %d (ID %d) that the addressed IKE_SA %s of %s cannot verify / decrypt under the keys '
+                        'the two ends negotiated: %s: %s' % (d.sender, 'response' if data[19] & 0x20 else 'request', data[18],
+                                                           int.from_bytes(data[20:24], 'big'), bytes(sa.my_spi).hex(), peer.name,
+                                                           type(ex).__name__, str(ex)[:80])))
+        finally:
+            w.use_side = False
+    return out
